@@ -61,6 +61,18 @@ def register(K):
     def _unpickle_spec(eng, st, b):
         return V("val", unpickle_fn()(b.t))
 
+    @K.external("struct.pack")
+    def _struct_pack(eng, st, args, kw, node):
+        """struct.pack(fmt, x): bytes determined by (fmt, x); struct.error when x does not fit (precise integer codecs: contracts/encoders.py)"""
+        PACK = z3.Function("STRUCT_PACK", Str, Val, __import__("pyvc.sorts", fromlist=["Bytes"]).Bytes)
+        out = []
+        bad = st.fork()
+        bad.pc.append(fresh("struct_error", Bool))
+        eng.raise_exc(bad, "struct.error")
+        out.append((bad, None))
+        out.append((st, V("bytes", PACK(args[0].t, box(eng.materialize(args[1], st))))))
+        return out
+
     @K.external("sys.stderr.write")
     def _stderr(eng, st, args, kw, node):
         st.log.append(("stderr", args[0], getattr(node, "lineno", 0)))
@@ -149,15 +161,60 @@ def register_streams(K):
 
     @K.external_method("stream", "read")
     def _sread(eng, st, recv, args, kw, node):
+        """read(n): the next min(n, remaining) bytes, advancing the position; read(): everything that remains"""
+        r = eng.as_ref(recv, st)
         st.log.append(("effect", "read(arg)", "stream.read", getattr(node, "lineno", 0)))
         st.log.append(("read", recv, getattr(node, "lineno", 0)))
-        return [(st, V("bytes", fresh("read_bytes", Bytes)))]
+        content = st.read("stream.content", r, Bytes)
+        pos = st.read("stream.position", r, Int)
+        rem = z3.Length(content) - pos
+        rem = z3.If(rem < 0, 0, rem)
+        if args and args[0].k != "none":
+            n = eng.as_int(args[0])
+            take = z3.If(n < 0, rem, z3.If(n < rem, n, rem))
+        else:
+            take = rem
+        data = z3.SubString(content, pos, take)
+        st.write("stream.position", r, pos + take, Int)
+        return [(st, V("bytes", data))]
 
     @K.external_method("stream", "seek")
     def _sseek(eng, st, recv, args, kw, node):
+        r = eng.as_ref(recv, st)
         st.log.append(("effect", "seek(arg)", "stream.seek", getattr(node, "lineno", 0)))
-        return [(st, vint(fresh("pos")))]
+        p = eng.as_int(args[0])
+        st.write("stream.position", r, p, Int)
+        return [(st, vint(p))]
 
     @K.external_method("stream", "tell")
     def _stell(eng, st, recv, args, kw, node):
-        return [(st, vint(fresh("pos")))]
+        return [(st, vint(st.read("stream.position", eng.as_ref(recv, st), Int)))]
+
+    @K.external_method("stream", "seekable")
+    def _sseekable(eng, st, recv, args, kw, node):
+        from pyvc.sorts import Bool as _B
+        return [(st, vbool(st.read("stream.is_seekable", eng.as_ref(recv, st), _B)))]
+
+    @K.external("io.BytesIO")
+    def _bytesio(eng, st, args, kw, node):
+        from pyvc.sorts import Bool as _B
+        r = st.alloc("stream")
+        data = args[0] if args else None
+        if data is None:
+            content = z3.Empty(Bytes)
+        elif data.k == "bytes":
+            content = data.t
+        elif data.k == "val":
+            content = Val.y(data.t)
+        else:
+            raise eng_unsupported(f"BytesIO of {data!r}")
+        st.H["stream.content"] = z3.Store(st.comp("stream.content", Bytes), r, content)
+        st.H["stream.position"] = z3.Store(st.comp("stream.position", Int), r, z3.IntVal(0))
+        st.H["stream.is_seekable"] = z3.Store(st.comp("stream.is_seekable", _B), r, z3.BoolVal(True))
+        st.log.append(("bytesio", vref(r, cls="stream"), data))
+        return [(st, vref(r, cls="stream"))]
+
+
+def eng_unsupported(msg):
+    from pyvc.eval import Unsupported
+    return Unsupported(msg)
